@@ -194,9 +194,25 @@ def find_fns(text, mask=None, start=0, end=None):
         where = -1
         adepth = 0
         body_open = -1
+        clause_mode = False     # inside injected requires / ensures / decreases clauses: `<` is a comparison there
         while i < end:
             if mask[i]:
                 c = text[i]
+                if not clause_mode and adepth == 0 and re.match(r'(requires|ensures|decreases)\b', text[i:i+10]) and not (text[i-1].isalnum() or text[i-1] == '_'):
+                    clause_mode = True
+                if clause_mode:
+                    if c in '([':
+                        i = match_bracket(text, mask, i)
+                    elif c == '{':
+                        j = i - 1
+                        while j >= 0 and text[j].isspace():
+                            j -= 1
+                        if text[j] == ',':
+                            body_open = i
+                            break
+                        i = match_bracket(text, mask, i)
+                    i += 1
+                    continue
                 if text.startswith('->', i) and arrow < 0:
                     arrow = i
                     i += 2
